@@ -34,6 +34,13 @@ TARGETS = {
         {'m': 1, 'cap': 2, 'values': ['99'], 'promises': ['99'], 'rng': 'zero', 'label': 'member 2'}], 'actions': ACTS},
     'T6 gens n4 cap2 x2': {'scenario': 'gens', 'n': 4, 'cap': 2, 'x': 2},
 }
+# the same PARAMETERS OBJECT (clones of it) used by successive calls with different aggregation factors, in both directions
+TARGETS['T7 n8 x1 cap4 shared parameters, m=1'] = {'scenario': 'batch', 'n': 8, 'x': 1, 'members': [{'m': 1, 'cap': 4, 'seeded': True, 'values': ['41'], 'rng': 'const', 'share_params': True}], 'actions': ACTS}
+TARGETS['T8 n8 x1 cap4 shared parameters, m=4'] = {'scenario': 'batch', 'n': 8, 'x': 1, 'members': [{'m': 4, 'cap': 4, 'values': ['1', '20', '3', '255'], 'rng': 'zero', 'share_params': True, 'name_idx': 3}], 'actions': ACTS}
+TARGETS['T9 n8 x1 cap4 shared parameters, batch m=2,1,4'] = {'scenario': 'batch', 'n': 8, 'x': 1, 'members': [
+    {'m': 2, 'cap': 4, 'values': ['5', '6'], 'rng': 'const', 'share_params': True, 'label': 'member 0', 'name_idx': 4},
+    {'m': 1, 'cap': 4, 'values': ['7'], 'seeded': True, 'rng': 'const', 'share_params': True, 'label': 'member 1', 'name_idx': 5},
+    {'m': 4, 'cap': 4, 'values': ['8', '9', '10', '11'], 'rng': 'const', 'share_params': True, 'label': 'member 2', 'name_idx': 6}], 'actions': ACTS}
 HISTORY_ONLY = {
     'H1 gens n8 cap4 x6': {'scenario': 'gens', 'n': 8, 'cap': 4, 'x': 6},
     'H2 altered proof refused': {'scenario': 'batch', 'n': 8, 'x': 1, 'members': [{'m': 1, 'cap': 1, 'seeded': True, 'values': ['31'], 'rng': 'const', 'name_idx': 7,
